@@ -294,10 +294,31 @@ Fixpoint decode_trace (l : list N) : list event :=
   | _ => []
   end.
 
-Record tcase := mkcase { c_W : N; c_complete : bool; c_trace : list N }.
+(* ---------- FIFO hand-over, observable with one worker ---------- *)
+(* With W = 1 the order of start events is the order in which the dispatcher handed the jobs over, which is the order in which
+   the sends completed. What a trace shows of that order: a job whose submit-return was logged before the submit-call of b
+   was sent before b, so it has started before b starts. [f_snaps] keeps, for every called job, the returns logged before its call. *)
+Record fifo_st := mkf { f_ret : list job; f_snaps : list (job * list job); f_started : list job }.
+Definition finit : fifo_st := mkf [] [] [].
+Definition fstep (φ : fifo_st) (e : event) : option fifo_st :=
+  match e with
+  | ESubCall b => Some (mkf (f_ret φ) ((b, f_ret φ) :: f_snaps φ) (f_started φ))
+  | ESubRet a => Some (mkf (a :: f_ret φ) (f_snaps φ) (f_started φ))
+  | EStart b =>
+      if forallb (fun sn : job * list job => if N.eqb (fst sn) b then forallb (fun a => mem a (f_started φ)) (snd sn) else true) (f_snaps φ)
+      then Some (mkf (f_ret φ) (f_snaps φ) (b :: f_started φ)) else None
+  | _ => Some φ
+  end.
+Fixpoint fruns (φ : fifo_st) (tr : list event) : option fifo_st :=
+  match tr with [] => Some φ | e :: r => match fstep φ e with Some φ' => fruns φ' r | None => None end end.
+Definition fifo1_ok (tr : list event) : bool := match fruns finit tr with Some _ => true | None => false end.
+
+(* [c_fifo]: the harness asks for the FIFO check (one worker, a trace short enough for the cubic check) *)
+Record tcase := mkcase { c_W : N; c_complete : bool; c_fifo : bool; c_trace : list N }.
 Definition case_ok (c : tcase) : bool :=
   let tr := decode_trace (c_trace c) in
-  if c_complete c then accepts_complete (N.to_nat (c_W c)) tr else accepts (N.to_nat (c_W c)) tr.
+  (if c_complete c then accepts_complete (N.to_nat (c_W c)) tr else accepts (N.to_nat (c_W c)) tr) &&
+  (if c_fifo c && (c_W c =? 1)%N then fifo1_ok tr else true).
 
 (* indices (from [off]) of the recorded traces that the specification machine rejects *)
 Definition c19_mismatch (off : N) (cs : list tcase) : list N := failing_from case_ok off cs.
